@@ -3670,7 +3670,7 @@ class Assemble(Array):
                     ax1 = 0 # axis of self.func
                     ax2 = 0 # axis of self
                     while ax1 < i: # find ax1, ax2 corresponding to i
-                        ax1 += indices[ax2].ndim
+                        ax1 += self.indices[ax2].ndim # count with the original indices: merged ones may differ in ndim
                         ax2 += 1
                     if ax1 != i or ax2 >= self.ndim or indices[ax2] != Range(self.shape[ax2]):
                         # Any nontrivial nesting scenario would have been
